@@ -1,6 +1,7 @@
 use crate::driver::PropMeta;
 
 pub mod c01;
+pub mod c02;
 pub mod c03;
 pub mod c04;
 pub mod c05;
@@ -13,5 +14,5 @@ pub mod codec_common;
 pub mod typed;
 
 pub fn registry() -> Vec<PropMeta> {
-    vec![c01::meta(), c03::meta(), c04::meta(), c05::meta(), c06::meta(), c07::meta(), c08::meta(), c09::meta(), c20::meta()]
+    vec![c01::meta(), c02::meta(), c03::meta(), c04::meta(), c05::meta(), c06::meta(), c07::meta(), c08::meta(), c09::meta(), c20::meta()]
 }
